@@ -239,11 +239,14 @@ template <int Y> static void adj_affine_h()
     cl.min[0] = 0; cl.min[1] = 0; cl.max[0] = EX - 1; cl.max[1] = EY - 1;
     typename T::owning_data_t to(typename T::configuration_t{}, typename C::owning_data_t(cl, layout<L>()));
     using B = cb::affine<T>;
+    // linear's domain is x >= 0 (C03; negative coordinates make its float -> index conversion undefined): for the linear
+    // stacks matrix and coordinate are non-negative, so A c + t is; nearest neighbour takes either sign
+    constexpr float LOW = (Y == 1 || Y == 3) ? 0.0f : -8.0f;
     algebra::matrix<2, 3, float> m;
     for (size_t i = 0; i < 2; i++)
         for (size_t j = 0; j < 3; j++) {
             float a = vf_nondet_f32();
-            vf_assume(a >= -8.0f && a <= 8.0f);
+            vf_assume(a >= LOW && a <= 8.0f);
             m(i, j) = a;
         }
     algebra::affine<2, float> tr(m);
@@ -253,7 +256,7 @@ template <int Y> static void adj_affine_h()
     algebra::vector<2, float> c;
     for (size_t k = 0; k < 2; k++) {
         float a = vf_nondet_f32();
-        vf_assume(a >= -8.0f && a <= 8.0f);
+        vf_assume(a >= LOW && a <= 8.0f);
         c(k) = a;
     }
     auto r = v.at(c(0), c(1));
